@@ -19,12 +19,21 @@ LEVEL = "proof"
 LV = "rpylib.distribution.levycopula:"
 
 
-def clayton(vc):
+def clayton(vc, reassigned=False):
+    """a Clayton copula built by its REAL constructor; reassigned: built with other parameters first, theta and eta assigned
+    afterwards (public attributes, theta through its validating descriptor) -- nothing may remember the constructor's values"""
     theta, eta = vc.real("theta"), vc.real("eta")
     vc.assume(And(theta > 0, eta >= 0, eta <= 1))
     vc.sp_symbol("theta", positive=True)
     vc.sp_symbol("eta", nonnegative=True)
-    return vc.obj(LV + "ClaytonCopula", eta=eta, **{"theta": theta}), theta, eta
+    if not reassigned:
+        return vc.new(LV + "ClaytonCopula", theta=theta, eta=eta), theta, eta
+    th0, et0 = vc.real("theta_at_construction"), vc.real("eta_at_construction")
+    vc.assume(And(th0 > 0, et0 >= 0, et0 <= 1))
+    cop = vc.new(LV + "ClaytonCopula", theta=th0, eta=et0)
+    vc.interp.setattr(cop, "theta", theta)
+    vc.interp.setattr(cop, "eta", eta)
+    return cop, theta, eta
 
 
 def pinned(vc, eta):
@@ -260,15 +269,16 @@ class ClaytonConditional(Lemma):
     limits 0 at -inf, 1 at +inf, continuous at 0, derivative equals a manifestly non-negative expression; and the real
     `_inverse_conditional_distribution_2d` inverts it wherever it is strictly increasing (weight of the half-line > 0)."""
     prop = "C11"
-    cases = tuple((se, sx) for se in (+1, -1) for sx in (+1, -1))
+    cases = tuple((se, sx) for se in (+1, -1) for sx in (+1, -1)) + ((+1, -1, "parameters reassigned"), (-1, -1, "parameters reassigned"))
 
     def __init__(self):
         self.name = "property:clayton-conditional-distribution"
 
     def prove(self, vc, case):
-        se, sx = case
-        nm = f"{self.name}[eps{'+' if se > 0 else '-'},x{'+' if sx > 0 else '-'}]"
-        cop, theta, eta = clayton(vc)
+        se, sx = case[:2]
+        re_ = len(case) > 2
+        nm = f"{self.name}[eps{'+' if se > 0 else '-'},x{'+' if sx > 0 else '-'}{',parameters reassigned after construction' if re_ else ''}]"
+        cop, theta, eta = clayton(vc, reassigned=re_)
         (eps,), (e,) = signed_args(vc, [se], "eps")
         (x,), (m,) = signed_args(vc, [sx], "x")
         th, et = sp.Symbol("theta", positive=True), sp.Symbol("eta", nonnegative=True)
@@ -306,8 +316,12 @@ class ClaytonConditional(Lemma):
 
     def replay(self, model, clause, case):
         from rpylib.distribution.levycopula import ClaytonCopula
-        se, sx = case
-        c = ClaytonCopula(theta=0.7, eta=0.3)
+        se, sx = case[:2]
+        if len(case) > 2:
+            c = ClaytonCopula(theta=2.5, eta=0.8)
+            c.theta, c.eta = 0.7, 0.3
+        else:
+            c = ClaytonCopula(theta=0.7, eta=0.3)
         eps, x = se * 0.8, sx * 1.7
         v = c.conditional_distribution(eps, np.array([x]))
         back = c.inverse_conditional_distribution(eps, v)
